@@ -23,8 +23,9 @@ TNext == DNext /\ UNCHANGED tid
 TSpec == TInit /\ [][TNext]_<<allvars, tid>>
 
 Failed ==
-  {n \in {"ExitZeroOnlyIfClean", "Usage64", "HelpDoesNothing", "ReportMatchesStatus", "FilesAreReported", "IndexOnlyWhenAsked"} :
-     CASE n = "ExitZeroOnlyIfClean" -> w.usage = "none" /\ ~ExitZeroOnlyIfClean(O.exit, OProc)
+  {n \in {"Terminates", "ExitZeroOnlyIfClean", "Usage64", "HelpDoesNothing", "ReportMatchesStatus", "FilesAreReported", "IndexOnlyWhenAsked"} :
+     CASE n = "Terminates" -> O.exit = 124      \* the harness cut the run off: the script did not end
+       [] n = "ExitZeroOnlyIfClean" -> w.usage = "none" /\ ~ExitZeroOnlyIfClean(O.exit, OProc)
        [] n = "Usage64" -> ~Usage64(w.usage, O.exit, OFiles \cup Rng(O.removed), O.idx, O.ncompiles)
        [] n = "HelpDoesNothing" -> ~HelpDoesNothing(w.usage, O.exit, OFiles \cup Rng(O.removed), O.idx, O.ncompiles)
        [] n = "ReportMatchesStatus" -> O.ncompiles = 1 /\ O.completed /\ ~ReportMatchesStatus(ORep, O.reported, OProc)
